@@ -20,7 +20,8 @@ always returns on a wide interval (`C01.auto_total`).
   exceptions included — every point the objective has been evaluated at satisfies the constraints
   (`Spec.feasibleLog`, the predicate the driver evaluates on the implementation's log) and the
   reported point is feasible (`Spec.feasibleReport`);
-* `golden_auto_policy_feasible` — the golden section search (bracketing included) is such an optimiser;
+* `golden_auto_policy_feasible`, `brent_auto_policy_feasible` — the golden section search and Brent's
+  method (both bracketings included) are such optimisers;
 * `auto_never_raises` — under the automatic policy, with wide intervals, no `setValue` of the
   optimiser's list raises.
 The same holds under the `keep` policy (the theorems only need `policy ≠ ignore`), where a plain
@@ -98,6 +99,37 @@ theorem golden_auto_policy_feasible (obj : List ℝ → ℝ) (D : Deriv ℝ) (ca
     refine ⟨hi.1.1, hrep _ hi.2, fun fuel' => ?_⟩
     have ho := gssOptimize_safe hsafe fuel' s1 hi.1 hi.2
     cases hopt : gssOptimize (Fn.iface obj D cap) fuel' s1 with
+    | error e => rw [hopt] at ho; exact ho
+    | ok r => rw [hopt] at ho; exact ⟨ho.1.1, hrep _ ho.2⟩
+
+/-- **brent_auto_policy_feasible**: the same for `BrentOneDimension` — `init` with either bracketing
+(the inward scan included), any number of steps (each evaluates on a copy of the optimiser's list),
+the final evaluation of its `optimize`. -/
+theorem brent_auto_policy_feasible (obj : List ℝ → ℝ) (D : Deriv ℝ) (cap : Option Nat) (fuel : Nat)
+    (params : PList ℝ) (s : St (Fn ℝ) (Brent ℝ) ℝ) (hpol : s.core.policy ≠ .ignore)
+    (hfeas : feasibleList params = true) (hnd : (params.map (·.name)).Nodup)
+    (hs0 : FeasFn (consOf params) s.fn) :
+    ROk (FeasFn (consOf params))
+      (fun s1 => Spec.feasibleLog (consOf params) s1.fn.log = true ∧ Spec.feasibleReport s1.core.params = true ∧
+        ∀ fuel', ROk (FeasFn (consOf params))
+          (fun r => Spec.feasibleLog (consOf params) r.1.fn.log = true ∧ Spec.feasibleReport r.1.core.params = true)
+          (brentOptimize (Fn.iface obj D cap) fuel' s1))
+      ((brentAlgo (Fn.iface obj D cap) fuel).init s params) := by
+  have hsafe := objective_safe obj D cap (consOf params)
+  have hT0 := applyPolicy_tied params s.core.policy hpol hfeas hnd
+  have hrep : ∀ pl, Tied (consOf params) pl → Spec.feasibleReport pl = true := by
+    intro pl hT
+    unfold Spec.feasibleReport feasibleList
+    rw [List.all_eq_true]
+    exact fun q hq => (hT q hq).1
+  have hi := init_safe (brent_safeAlgo hsafe fuel) s params hs0 hT0
+  cases hinit : (brentAlgo (Fn.iface obj D cap) fuel).init s params with
+  | error e => rw [hinit] at hi; exact hi
+  | ok s1 =>
+    rw [hinit] at hi
+    refine ⟨hi.1.1, hrep _ hi.2, fun fuel' => ?_⟩
+    have ho := brentOptimize_safe hsafe fuel' s1 hi.1 hi.2
+    cases hopt : brentOptimize (Fn.iface obj D cap) fuel' s1 with
     | error e => rw [hopt] at ho; exact ho
     | ok r => rw [hopt] at ho; exact ⟨ho.1.1, hrep _ ho.2⟩
 
